@@ -419,7 +419,6 @@ Definition proj_dt (k : nat) (y mo d h mi s : Z) : dtv :=
 Lemma date_ok_default : date_ok 1900 1 1. Proof. unfold date_ok. change (days_in_month 1900 1) with 31. lia. Qed.
 Lemma time_ok_zero : time_ok 0 0 0. Proof. unfold time_ok. lia. Qed.
 
-Set Default Timeout 60.
 Section Roundtrip.
   Variables (wd : text) (y mo d h mi s : Z).
   Hypothesis Hwd : In wd wd_names.
